@@ -1,13 +1,4 @@
-mod c01;
-mod c02;
-mod c03;
-mod c04;
-mod c05;
-mod c14;
-mod c15;
-mod c16;
-mod c17;
-mod mcase;
+use vmatch::*;
 
 fn main() {
     let args: Vec<String> = std::env::args().skip(1).collect();
@@ -22,6 +13,7 @@ fn main() {
         "C03" => vcommon::driver::main_for(&c03::C03, rest),
         "C04" => vcommon::driver::main_for(&c04::C04, rest),
         "C05" => vcommon::driver::main_for(&c05::C05, rest),
+        "C10" => vcommon::driver::main_for(&c10::C10, rest),
         "C14" => vcommon::driver::main_for(&c14::C14, rest),
         "C15" => vcommon::driver::main_for(&c15::C15, rest),
         "C16" => vcommon::driver::main_for(&c16::C16, rest),
